@@ -937,16 +937,24 @@ Definition eModelsDisagree := 998.
 (* Both models are evaluated on every case: the object-level model gives the observation (results, zone
    content, object identities); the value-level model (the one `refines` is about) must give the same
    results and content, otherwise the case is reported as a disagreement. *)
+Definition run_case (kind rel : Z) (origin probes hist : list obs) (idobs : bool) : obs :=
+  match name_of_obs origin, names_of_obs probes, hist_of_obs hist with
+  | Some origin, Some probes, Some h =>
+      let c := mkCfg kind (rel =? 1) origin in
+      let oh := obs_of_htxns c probes ([], []) (heap_hist c h ([], [])) in
+      let ov := map (obs_of_txn c probes) (impl_hist c h []) in
+      if obs_eqb (L (drop_identity oh)) (L ov)
+      then (if idobs then L oh else L (drop_identity oh))
+      else E eModelsDisagree
+  | _, _, _ => E eBadCase
+  end.
+
+(* cfg = [kind; relativize; origin] or [kind; relativize; origin; identity observed?].  Identity is not
+   observed for B-tree zones whose history touches NS records: btreezone's delegation / glue bookkeeping
+   (C20) re-creates the node objects below a cut to update their flags. *)
 Definition run (o : obs) : obs :=
   match o with
-  | L [L [I kind; I rel; L origin]; L probes; L hist] =>
-      match name_of_obs origin, names_of_obs probes, hist_of_obs hist with
-      | Some origin, Some probes, Some h =>
-          let c := mkCfg kind (rel =? 1) origin in
-          let oh := obs_of_htxns c probes ([], []) (heap_hist c h ([], [])) in
-          let ov := map (obs_of_txn c probes) (impl_hist c h []) in
-          if obs_eqb (L (drop_identity oh)) (L ov) then L oh else E eModelsDisagree
-      | _, _, _ => E eBadCase
-      end
+  | L [L [I kind; I rel; L origin]; L probes; L hist] => run_case kind rel origin probes hist true
+  | L [L [I kind; I rel; L origin; I idobs]; L probes; L hist] => run_case kind rel origin probes hist (idobs =? 1)
   | _ => E eBadCase
   end.
